@@ -285,7 +285,7 @@ def emit(globs, defaults, display) -> str:
     return "\n".join(L)
 
 
-def main(repo: str = "/repo", out: str = "/verif/lean/LbfgsbVerif/Generated/State.lean"):
+def main(repo: str = "/repo", out: str = str(Path(__file__).resolve().parent.parent / "lean" / "LbfgsbVerif" / "Generated" / "State.lean")):
     repo, out = Path(repo), Path(out)
     txt = emit(*analyse(repo))
     if not out.exists() or out.read_text() != txt:
